@@ -245,16 +245,17 @@ impl ZoSortedStrVec {
         // select1(index) returns the position of the (index+1)th set bit (0-indexed)
         let start_pos = self.rank_select.select1(index).ok()? as usize;
 
-        // Check if this is an empty string (starts with null terminator)
-        if self.data[start_pos] == 0 {
-            return Some("");
+        // The string ends right before its terminator, i.e. one byte before the start of the
+        // next string (or before the last byte of the data for the last string). Using the
+        // boundaries instead of scanning for a zero byte keeps strings that contain U+0000 intact.
+        let end_pos = if index + 1 < self.len {
+            (self.rank_select.select1(index + 1).ok()? as usize).checked_sub(1)?
+        } else {
+            self.data.len().checked_sub(1)?
+        };
+        if end_pos < start_pos {
+            return None;
         }
-
-        // Find the end position (next null terminator)
-        let end_pos = self.data[start_pos..]
-            .iter()
-            .position(|&b| b == 0)
-            .map(|pos| start_pos + pos)?;
 
         // Convert bytes to string slice
         std::str::from_utf8(&self.data[start_pos..end_pos]).ok()
